@@ -73,7 +73,8 @@ type c10Res struct {
 	Ms     int64  `json:"ms,omitempty"`     // wall time of the job (evidence only)
 }
 
-const c10Deadline = 15 * time.Second
+const c10Deadline = 12 * time.Second
+const c10MaxHangs = 3
 
 // c10Sites extracts the first non-runtime frame and the first itchio/wharf frame of a Go stack
 // dump (frames before the innermost "panic(" line are ignored): "pkg.func @ file.go:line".
@@ -558,6 +559,20 @@ func c10RunShard(c *Ctx, jobs []*c10Job, shard int) ([]*c10Res, error) {
 		}
 		if err := rewrite(); err != nil {
 			return nil, err
+		}
+		// every hang costs a full deadline: after a few of them the verdict is settled, the rest
+		// of this shard is not run (reported as "skipped", never compared)
+		hangs := 0
+		for _, r := range results {
+			if r.Class == "hang" {
+				hangs++
+			}
+		}
+		if hangs >= c10MaxHangs {
+			for len(results) < len(jobs) {
+				results = append(results, &c10Res{Class: "skipped", Stage: "harness-skip", Msg: "not run: too many hangs before"})
+			}
+			break
 		}
 		restarts++
 		if restarts > len(jobs)+5 {
